@@ -1,9 +1,1113 @@
 (* Lemmas about Model/Seq.v *)
 From SSL.Model Require Import Base Ty Float Value Seq.
-From Coq Require Import ZArith Lia.
+From Coq Require Import ZArith Lia List.
+Import ListNotations.
 Local Open Scope Z_scope.
 
 Lemma len_arr t vs : len_exec (VArr t vs) = Ok (Z.of_nat (length vs)).
 Proof. reflexivity. Qed.
 Lemma len_str s : len_exec (VString s) = Ok (Z.of_nat (length s)).
 Proof. reflexivity. Qed.
+
+(* ------------------------------------------------------------------ *)
+(* generic list helpers                                                *)
+(* ------------------------------------------------------------------ *)
+
+Lemma nth_error_ext_eq {A} (l1 l2 : list A) :
+  length l1 = length l2 ->
+  (forall j, (j < length l1)%nat -> nth_error l1 j = nth_error l2 j) ->
+  l1 = l2.
+Proof.
+  revert l2. induction l1 as [|x l1 IH]; intros [|y l2] Hlen Hnth;
+    cbn [length] in *; try discriminate; [reflexivity|].
+  f_equal.
+  - specialize (Hnth O ltac:(lia)). cbn in Hnth. congruence.
+  - apply IH; [lia|]. intros j Hj. apply (Hnth (S j)). lia.
+Qed.
+
+Lemma nth_error_lt_some {A} (l : list A) k :
+  (k < length l)%nat -> exists x, nth_error l k = Some x.
+Proof.
+  intros Hk. destruct (nth_error l k) as [x|] eqn:E; [eauto|].
+  apply nth_error_None in E. lia.
+Qed.
+
+(* ------------------------------------------------------------------ *)
+(* 1. indexing                                                         *)
+(* ------------------------------------------------------------------ *)
+
+Lemma neg_index_mod n i : -n <= i < 0 -> i mod n = n + i.
+Proof.
+  intros H. symmetry. apply (Z.mod_unique i n (-1) (n + i)); lia.
+Qed.
+
+Lemma at_index_in n i :
+  -n <= i < n -> at_index n i = Some (Z.to_nat (i mod n)).
+Proof.
+  intros H. unfold at_index.
+  destruct (0 <=? i) eqn:E0.
+  - apply Z.leb_le in E0.
+    destruct (i <? n) eqn:E1; [|apply Z.ltb_ge in E1; lia].
+    rewrite Z.mod_small by lia. reflexivity.
+  - apply Z.leb_gt in E0.
+    destruct (0 <=? n + i) eqn:E1; [|apply Z.leb_gt in E1; lia].
+    rewrite neg_index_mod by lia. reflexivity.
+Qed.
+
+Lemma at_index_out n i :
+  ~ (-n <= i < n) -> at_index n i = None.
+Proof.
+  intros H. unfold at_index.
+  destruct (0 <=? i) eqn:E0.
+  - apply Z.leb_le in E0.
+    destruct (i <? n) eqn:E1; [apply Z.ltb_lt in E1; lia|reflexivity].
+  - apply Z.leb_gt in E0.
+    destruct (0 <=? n + i) eqn:E1; [apply Z.leb_le in E1; lia|reflexivity].
+Qed.
+
+Lemma index_mod_lt {A} (l : list A) i :
+  - zlen l <= i < zlen l -> (Z.to_nat (i mod zlen l) < length l)%nat.
+Proof.
+  unfold zlen. intros H.
+  assert (Hm : 0 <= i mod Z.of_nat (length l) < Z.of_nat (length l))
+    by (apply Z.mod_pos_bound; lia).
+  lia.
+Qed.
+
+Lemma in_range_dec n i : {-n <= i < n} + {~ (-n <= i < n)}.
+Proof.
+  destruct (Z_le_dec (-n) i); destruct (Z_lt_dec i n); (left; lia) || (right; lia).
+Qed.
+
+(* arrays *)
+Lemma at_arr_some t vs i x :
+  - Z.of_nat (length vs) <= i < Z.of_nat (length vs) ->
+  nth_error vs (Z.to_nat (i mod Z.of_nat (length vs))) = Some x ->
+  at_exec (VArr t vs) (VInt i) = Ok x.
+Proof.
+  intros Hr Hn. cbn [at_exec]. unfold zlen.
+  rewrite at_index_in by exact Hr. rewrite Hn. reflexivity.
+Qed.
+
+Lemma at_arr_ok t vs i d :
+  - Z.of_nat (length vs) <= i < Z.of_nat (length vs) ->
+  at_exec (VArr t vs) (VInt i)
+  = Ok (nth (Z.to_nat (i mod Z.of_nat (length vs))) vs d).
+Proof.
+  intros Hr.
+  destruct (nth_error_lt_some vs _ (index_mod_lt vs i Hr)) as [x Hx].
+  unfold zlen in Hx.
+  rewrite (at_arr_some t vs i x Hr Hx).
+  f_equal. symmetry. apply nth_error_nth. exact Hx.
+Qed.
+
+Lemma at_arr_oob t vs i :
+  ~ (- Z.of_nat (length vs) <= i < Z.of_nat (length vs)) ->
+  at_exec (VArr t vs) (VInt i) = Err E_IndexOutOfBounds.
+Proof.
+  intros Hr. cbn [at_exec]. unfold zlen.
+  rewrite at_index_out by exact Hr. reflexivity.
+Qed.
+
+Lemma at_arr_iff t vs i x :
+  at_exec (VArr t vs) (VInt i) = Ok x <->
+  - Z.of_nat (length vs) <= i < Z.of_nat (length vs) /\
+  nth_error vs (Z.to_nat (i mod Z.of_nat (length vs))) = Some x.
+Proof.
+  split.
+  - intros H.
+    destruct (in_range_dec (Z.of_nat (length vs)) i) as [Hr|Hr].
+    + split; [exact Hr|].
+      destruct (nth_error_lt_some vs _ (index_mod_lt vs i Hr)) as [y Hy].
+      unfold zlen in Hy.
+      rewrite (at_arr_some t vs i y Hr Hy) in H. congruence.
+    + rewrite (at_arr_oob t vs i Hr) in H. discriminate.
+  - intros [Hr Hn]. exact (at_arr_some t vs i x Hr Hn).
+Qed.
+
+Lemma at_arr_no_panic t vs i : at_exec (VArr t vs) (VInt i) <> Panic.
+Proof.
+  destruct (in_range_dec (Z.of_nat (length vs)) i) as [Hr|Hr].
+  - rewrite (at_arr_ok t vs i VVoid Hr). discriminate.
+  - rewrite (at_arr_oob t vs i Hr). discriminate.
+Qed.
+
+Lemma at_arr_no_fuel t vs i : at_exec (VArr t vs) (VInt i) <> OutOfFuel.
+Proof.
+  destruct (in_range_dec (Z.of_nat (length vs)) i) as [Hr|Hr].
+  - rewrite (at_arr_ok t vs i VVoid Hr). discriminate.
+  - rewrite (at_arr_oob t vs i Hr). discriminate.
+Qed.
+
+(* strings *)
+Lemma at_str_some s i c :
+  - Z.of_nat (length s) <= i < Z.of_nat (length s) ->
+  nth_error s (Z.to_nat (i mod Z.of_nat (length s))) = Some c ->
+  at_exec (VString s) (VInt i) = Ok (VString [c]).
+Proof.
+  intros Hr Hn. cbn [at_exec]. unfold zlen.
+  rewrite at_index_in by exact Hr. rewrite Hn. reflexivity.
+Qed.
+
+Lemma at_str_ok s i d :
+  - Z.of_nat (length s) <= i < Z.of_nat (length s) ->
+  at_exec (VString s) (VInt i)
+  = Ok (VString [nth (Z.to_nat (i mod Z.of_nat (length s))) s d]).
+Proof.
+  intros Hr.
+  destruct (nth_error_lt_some s _ (index_mod_lt s i Hr)) as [x Hx].
+  unfold zlen in Hx.
+  rewrite (at_str_some s i x Hr Hx).
+  do 3 f_equal. symmetry. apply nth_error_nth. exact Hx.
+Qed.
+
+Lemma at_str_oob s i :
+  ~ (- Z.of_nat (length s) <= i < Z.of_nat (length s)) ->
+  at_exec (VString s) (VInt i) = Err E_IndexOutOfBounds.
+Proof.
+  intros Hr. cbn [at_exec]. unfold zlen.
+  rewrite at_index_out by exact Hr. reflexivity.
+Qed.
+
+Lemma at_str_iff s i x :
+  at_exec (VString s) (VInt i) = Ok x <->
+  - Z.of_nat (length s) <= i < Z.of_nat (length s) /\
+  exists c, nth_error s (Z.to_nat (i mod Z.of_nat (length s))) = Some c /\
+            x = VString [c].
+Proof.
+  split.
+  - intros H.
+    destruct (in_range_dec (Z.of_nat (length s)) i) as [Hr|Hr].
+    + split; [exact Hr|].
+      destruct (nth_error_lt_some s _ (index_mod_lt s i Hr)) as [y Hy].
+      unfold zlen in Hy.
+      rewrite (at_str_some s i y Hr Hy) in H. exists y. split; congruence.
+    + rewrite (at_str_oob s i Hr) in H. discriminate.
+  - intros [Hr [c [Hn Hx]]]. subst x. exact (at_str_some s i c Hr Hn).
+Qed.
+
+Lemma at_str_no_panic s i : at_exec (VString s) (VInt i) <> Panic.
+Proof.
+  destruct (in_range_dec (Z.of_nat (length s)) i) as [Hr|Hr].
+  - rewrite (at_str_ok s i 0 Hr). discriminate.
+  - rewrite (at_str_oob s i Hr). discriminate.
+Qed.
+
+Lemma at_str_no_fuel s i : at_exec (VString s) (VInt i) <> OutOfFuel.
+Proof.
+  destruct (in_range_dec (Z.of_nat (length s)) i) as [Hr|Hr].
+  - rewrite (at_str_ok s i 0 Hr). discriminate.
+  - rewrite (at_str_oob s i Hr). discriminate.
+Qed.
+
+(* non-negative / negative index, stated without mod *)
+Lemma at_arr_nonneg t vs i :
+  0 <= i < Z.of_nat (length vs) ->
+  at_exec (VArr t vs) (VInt i) =
+  match nth_error vs (Z.to_nat i) with Some x => Ok x | None => Panic end.
+Proof.
+  intros Hr.
+  destruct (nth_error_lt_some vs (Z.to_nat i) ltac:(lia)) as [x Hx].
+  rewrite Hx. apply at_arr_some; [lia|].
+  rewrite Z.mod_small by lia. exact Hx.
+Qed.
+
+Lemma at_arr_neg t vs i :
+  - Z.of_nat (length vs) <= i < 0 ->
+  at_exec (VArr t vs) (VInt i) = at_exec (VArr t vs) (VInt (Z.of_nat (length vs) + i)).
+Proof.
+  intros Hr.
+  rewrite (at_arr_ok t vs i VVoid) by lia.
+  rewrite (at_arr_ok t vs (Z.of_nat (length vs) + i) VVoid) by lia.
+  rewrite neg_index_mod by lia.
+  rewrite (Z.mod_small (Z.of_nat (length vs) + i)) by lia. reflexivity.
+Qed.
+
+Lemma at_str_neg s i :
+  - Z.of_nat (length s) <= i < 0 ->
+  at_exec (VString s) (VInt i) = at_exec (VString s) (VInt (Z.of_nat (length s) + i)).
+Proof.
+  intros Hr.
+  rewrite (at_str_ok s i 0) by lia.
+  rewrite (at_str_ok s (Z.of_nat (length s) + i) 0) by lia.
+  rewrite neg_index_mod by lia.
+  rewrite (Z.mod_small (Z.of_nat (length s) + i)) by lia. reflexivity.
+Qed.
+
+(* ------------------------------------------------------------------ *)
+(* 2. the slyce iterator = arithmetic progression                      *)
+(* ------------------------------------------------------------------ *)
+
+(* i, i+st, ..., i+(c-1)*st *)
+Definition arith_prog (i st : Z) (c : nat) : list Z :=
+  map (fun k => i + Z.of_nat k * st) (seq 0 c).
+
+Lemma arith_prog_S i st c :
+  arith_prog i st (S c) = i :: arith_prog (i + st) st c.
+Proof.
+  unfold arith_prog. cbn [seq map]. f_equal.
+  - lia.
+  - rewrite <- seq_shift, map_map. apply map_ext. intros k. lia.
+Qed.
+
+Lemma arith_prog_length i st c : length (arith_prog i st c) = c.
+Proof. unfold arith_prog. rewrite map_length, seq_length. reflexivity. Qed.
+
+Lemma arith_prog_nth i st c j d :
+  (j < c)%nat -> nth j (arith_prog i st c) d = i + Z.of_nat j * st.
+Proof.
+  revert i c. induction j as [|j IH]; intros i [|c] Hj; try lia;
+    rewrite arith_prog_S; cbn [nth].
+  - lia.
+  - rewrite IH by lia. lia.
+Qed.
+
+Lemma arith_prog_in i st c k :
+  In k (arith_prog i st c) <-> exists j, (j < c)%nat /\ k = i + Z.of_nat j * st.
+Proof.
+  unfold arith_prog. rewrite in_map_iff. split.
+  - intros [j [Hj Hin]]. apply in_seq in Hin. exists j. split; [lia|congruence].
+  - intros [j [Hj Hk]]. exists j. split; [congruence|]. apply in_seq. lia.
+Qed.
+
+(* Positive step: c items are produced as soon as the fuel is at least c. *)
+Lemma slyce_iter_pos_nat e st : 0 < st ->
+  forall c fuel i,
+    (c <= fuel)%nat ->
+    ((0 < c)%nat -> i + (Z.of_nat c - 1) * st < e) ->
+    e <= i + Z.of_nat c * st ->
+    slyce_iter fuel i e st = arith_prog i st c.
+Proof.
+  intros Hst. induction c as [|c IH]; intros fuel i Hfuel Hlast Hstop.
+  - destruct fuel as [|fuel]; [reflexivity|].
+    cbn [slyce_iter].
+    destruct (0 <=? st) eqn:E0; [|apply Z.leb_gt in E0; lia].
+    destruct (i <? e) eqn:E1; [apply Z.ltb_lt in E1; lia|reflexivity].
+  - destruct fuel as [|fuel]; [lia|].
+    rewrite arith_prog_S. cbn [slyce_iter].
+    destruct (0 <=? st) eqn:E0; [|apply Z.leb_gt in E0; lia].
+    specialize (Hlast ltac:(lia)).
+    assert (Hc : 0 <= Z.of_nat c * st) by (apply Z.mul_nonneg_nonneg; lia).
+    replace ((Z.of_nat (S c) - 1) * st) with (Z.of_nat c * st) in Hlast
+      by (f_equal; lia).
+    replace (Z.of_nat (S c) * st) with (st + Z.of_nat c * st) in Hstop
+      by (rewrite Nat2Z.inj_succ; ring).
+    destruct (i <? e) eqn:E1; [|apply Z.ltb_ge in E1; lia].
+    f_equal. apply IH.
+    + lia.
+    + intros _.
+      replace (i + st + (Z.of_nat c - 1) * st) with (i + Z.of_nat c * st) by ring.
+      exact Hlast.
+    + lia.
+Qed.
+
+Lemma slyce_iter_neg_nat e st : st < 0 ->
+  forall c fuel i,
+    (c <= fuel)%nat ->
+    ((0 < c)%nat -> e < i + (Z.of_nat c - 1) * st) ->
+    i + Z.of_nat c * st <= e ->
+    slyce_iter fuel i e st = arith_prog i st c.
+Proof.
+  intros Hst. induction c as [|c IH]; intros fuel i Hfuel Hlast Hstop.
+  - destruct fuel as [|fuel]; [reflexivity|].
+    cbn [slyce_iter].
+    destruct (0 <=? st) eqn:E0; [apply Z.leb_le in E0; lia|].
+    destruct (e <? i) eqn:E1; [apply Z.ltb_lt in E1; lia|reflexivity].
+  - destruct fuel as [|fuel]; [lia|].
+    rewrite arith_prog_S. cbn [slyce_iter].
+    destruct (0 <=? st) eqn:E0; [apply Z.leb_le in E0; lia|].
+    specialize (Hlast ltac:(lia)).
+    assert (Hc : Z.of_nat c * st <= 0) by (apply Z.mul_nonneg_nonpos; lia).
+    replace ((Z.of_nat (S c) - 1) * st) with (Z.of_nat c * st) in Hlast
+      by (f_equal; lia).
+    replace (Z.of_nat (S c) * st) with (st + Z.of_nat c * st) in Hstop
+      by (rewrite Nat2Z.inj_succ; ring).
+    destruct (e <? i) eqn:E1; [|apply Z.ltb_ge in E1; lia].
+    f_equal. apply IH.
+    + lia.
+    + intros _.
+      replace (i + st + (Z.of_nat c - 1) * st) with (i + Z.of_nat c * st) by ring.
+      exact Hlast.
+    + lia.
+Qed.
+
+(* the closed-form count of py_slice *)
+Definition py_count (s0 e0 st : Z) : Z :=
+  if st <? 0 then (if e0 <? s0 then (s0 - e0 - 1) / (- st) + 1 else 0)
+  else (if s0 <? e0 then (e0 - s0 - 1) / st + 1 else 0).
+
+Lemma py_count_pos_spec s0 e0 st : 0 < st ->
+  let c := py_count s0 e0 st in
+  0 <= c /\ (0 < c -> s0 + (c - 1) * st < e0) /\ e0 <= s0 + c * st /\
+  (0 < c -> c <= e0 - s0).
+Proof.
+  intros Hst. unfold py_count.
+  destruct (st <? 0) eqn:E0; [apply Z.ltb_lt in E0; lia|].
+  destruct (s0 <? e0) eqn:E1.
+  - apply Z.ltb_lt in E1. cbv zeta.
+    pose proof (Z.div_mod (e0 - s0 - 1) st ltac:(lia)) as Hdm.
+    pose proof (Z.mod_pos_bound (e0 - s0 - 1) st Hst) as Hmb.
+    pose proof (Z.div_pos (e0 - s0 - 1) st ltac:(lia) Hst) as Hq.
+    set (q := (e0 - s0 - 1) / st) in *.
+    set (r := (e0 - s0 - 1) mod st) in *.
+    replace ((q + 1 - 1) * st) with (st * q) by ring.
+    replace ((q + 1) * st) with (st * q + st) by ring.
+    assert (Hqq : q <= st * q) by nia.
+    repeat split; try lia.
+  - apply Z.ltb_ge in E1. cbv zeta. repeat split; lia.
+Qed.
+
+Lemma py_count_neg_spec s0 e0 st : st < 0 ->
+  let c := py_count s0 e0 st in
+  0 <= c /\ (0 < c -> e0 < s0 + (c - 1) * st) /\ s0 + c * st <= e0 /\
+  (0 < c -> c <= s0 - e0).
+Proof.
+  intros Hst. unfold py_count.
+  destruct (st <? 0) eqn:E0; [|apply Z.ltb_ge in E0; lia].
+  destruct (e0 <? s0) eqn:E1.
+  - apply Z.ltb_lt in E1. cbv zeta.
+    assert (Hst' : 0 < - st) by lia.
+    pose proof (Z.div_mod (s0 - e0 - 1) (- st) ltac:(lia)) as Hdm.
+    pose proof (Z.mod_pos_bound (s0 - e0 - 1) (- st) Hst') as Hmb.
+    pose proof (Z.div_pos (s0 - e0 - 1) (- st) ltac:(lia) Hst') as Hq.
+    set (q := (s0 - e0 - 1) / (- st)) in *.
+    set (r := (s0 - e0 - 1) mod (- st)) in *.
+    replace ((q + 1 - 1) * st) with (- (- st * q)) by ring.
+    replace ((q + 1) * st) with (- (- st * q) + st) by ring.
+    assert (Hqq : q <= - st * q) by nia.
+    repeat split; try lia.
+  - apply Z.ltb_ge in E1. cbv zeta. repeat split; lia.
+Qed.
+
+(* The fuel never cuts the iterator short: any fuel >= count is enough. *)
+Lemma slyce_iter_count fuel i e st :
+  st <> 0 ->
+  (Z.to_nat (py_count i e st) <= fuel)%nat ->
+  slyce_iter fuel i e st = arith_prog i st (Z.to_nat (py_count i e st)).
+Proof.
+  intros Hst Hfuel.
+  destruct (Z_lt_dec 0 st) as [Hpos|Hnpos].
+  - destruct (py_count_pos_spec i e st Hpos) as [H0 [H1 [H2 _]]].
+    apply (slyce_iter_pos_nat e st Hpos); [exact Hfuel| |];
+      rewrite Z2Nat.id by exact H0; [intros Hc; apply H1; lia|exact H2].
+  - assert (Hneg : st < 0) by lia.
+    destruct (py_count_neg_spec i e st Hneg) as [H0 [H1 [H2 _]]].
+    apply (slyce_iter_neg_nat e st Hneg); [exact Hfuel| |];
+      rewrite Z2Nat.id by exact H0; [intros Hc; apply H1; lia|exact H2].
+Qed.
+
+Lemma py_count_le_len len i e st :
+  0 <= len -> st <> 0 ->
+  (0 < st -> 0 <= i <= len /\ 0 <= e <= len) ->
+  (st < 0 -> -1 <= i <= len - 1 /\ -1 <= e <= len - 1) ->
+  0 <= py_count i e st <= len.
+Proof.
+  intros Hlen Hst Hp Hn.
+  destruct (Z_lt_dec 0 st) as [Hpos|Hnpos].
+  - destruct (py_count_pos_spec i e st Hpos) as [H0 [_ [_ H3]]].
+    specialize (Hp Hpos).
+    destruct (Z_lt_dec 0 (py_count i e st)); [specialize (H3 ltac:(lia))|]; lia.
+  - assert (Hneg : st < 0) by lia.
+    destruct (py_count_neg_spec i e st Hneg) as [H0 [_ [_ H3]]].
+    specialize (Hn Hneg).
+    destruct (Z_lt_dec 0 (py_count i e st)); [specialize (H3 ltac:(lia))|]; lia.
+Qed.
+
+(* Statement of step 2: with the model's own fuel S len, in the clamping range *)
+Lemma slyce_iter_spec_l len i e st :
+  0 <= len -> st <> 0 ->
+  (0 < st -> 0 <= i <= len /\ 0 <= e <= len) ->
+  (st < 0 -> -1 <= i <= len - 1 /\ -1 <= e <= len - 1) ->
+  slyce_iter (S (Z.to_nat len)) i e st
+  = map (fun k => i + Z.of_nat k * st) (seq 0 (Z.to_nat (py_count i e st))).
+Proof.
+  intros Hlen Hst Hp Hn.
+  pose proof (py_count_le_len len i e st Hlen Hst Hp Hn) as Hc.
+  apply slyce_iter_count; [exact Hst|]. lia.
+Qed.
+
+(* any larger fuel gives the same list *)
+Lemma slyce_iter_fuel_enough_l len i e st fuel :
+  0 <= len -> st <> 0 ->
+  (0 < st -> 0 <= i <= len /\ 0 <= e <= len) ->
+  (st < 0 -> -1 <= i <= len - 1 /\ -1 <= e <= len - 1) ->
+  (Z.to_nat len <= fuel)%nat ->
+  slyce_iter fuel i e st = slyce_iter (S (Z.to_nat len)) i e st.
+Proof.
+  intros Hlen Hst Hp Hn Hf.
+  pose proof (py_count_le_len len i e st Hlen Hst Hp Hn) as Hc.
+  rewrite !slyce_iter_count by (try exact Hst; lia). reflexivity.
+Qed.
+
+Lemma slyce_iter_length_le_l len i e st :
+  0 <= len -> st <> 0 ->
+  (0 < st -> 0 <= i <= len /\ 0 <= e <= len) ->
+  (st < 0 -> -1 <= i <= len - 1 /\ -1 <= e <= len - 1) ->
+  (length (slyce_iter (S (Z.to_nat len)) i e st) <= Z.to_nat len)%nat.
+Proof.
+  intros Hlen Hst Hp Hn.
+  pose proof (py_count_le_len len i e st Hlen Hst Hp Hn) as Hc.
+  rewrite slyce_iter_count by (try exact Hst; lia).
+  rewrite arith_prog_length. lia.
+Qed.
+
+(* ------------------------------------------------------------------ *)
+(* 3. slyce = CPython                                                  *)
+(* ------------------------------------------------------------------ *)
+
+Definition step_of (step : option Z) : Z :=
+  match step with None => 1 | Some s => s end.
+
+Definition py_start (len st : Z) (start : option Z) : Z :=
+  match start with
+  | None => if st <? 0 then len - 1 else 0
+  | Some i => py_adjust len st i
+  end.
+
+Definition py_stop (len st : Z) (stop : option Z) : Z :=
+  match stop with
+  | None => if st <? 0 then -1 else len
+  | Some i => py_adjust len st i
+  end.
+
+Lemma py_slice_unfold len start stop step :
+  py_slice len start stop step =
+  if step_of step =? 0 then []
+  else arith_prog (py_start len (step_of step) start) (step_of step)
+         (Z.to_nat (py_count (py_start len (step_of step) start)
+                             (py_stop len (step_of step) stop) (step_of step))).
+Proof. reflexivity. Qed.
+
+Lemma py_adjust_range_pos len st i :
+  0 <= len -> 0 < st -> 0 <= py_adjust len st i <= len.
+Proof.
+  intros Hlen Hst. unfold py_adjust.
+  destruct (st <? 0) eqn:Es; [apply Z.ltb_lt in Es; lia|].
+  destruct (i <? 0) eqn:E0.
+  - apply Z.ltb_lt in E0. cbv zeta.
+    destruct (i + len <? 0) eqn:E1;
+      [apply Z.ltb_lt in E1|apply Z.ltb_ge in E1]; lia.
+  - apply Z.ltb_ge in E0.
+    destruct (len <=? i) eqn:E1;
+      [apply Z.leb_le in E1|apply Z.leb_gt in E1]; lia.
+Qed.
+
+Lemma py_adjust_range_neg len st i :
+  0 <= len -> st < 0 -> -1 <= py_adjust len st i <= len - 1.
+Proof.
+  intros Hlen Hst. unfold py_adjust.
+  destruct (st <? 0) eqn:Es; [|apply Z.ltb_ge in Es; lia].
+  destruct (i <? 0) eqn:E0.
+  - apply Z.ltb_lt in E0. cbv zeta.
+    destruct (i + len <? 0) eqn:E1;
+      [apply Z.ltb_lt in E1|apply Z.ltb_ge in E1]; lia.
+  - apply Z.ltb_ge in E0.
+    destruct (len <=? i) eqn:E1;
+      [apply Z.leb_le in E1|apply Z.leb_gt in E1]; lia.
+Qed.
+
+Lemma py_start_range_pos len st a :
+  0 <= len -> 0 < st -> 0 <= py_start len st a <= len.
+Proof.
+  intros Hlen Hst. destruct a as [i|]; cbn [py_start].
+  - apply py_adjust_range_pos; assumption.
+  - destruct (st <? 0) eqn:Es; [apply Z.ltb_lt in Es|]; lia.
+Qed.
+
+Lemma py_stop_range_pos len st b :
+  0 <= len -> 0 < st -> 0 <= py_stop len st b <= len.
+Proof.
+  intros Hlen Hst. destruct b as [i|]; cbn [py_stop].
+  - apply py_adjust_range_pos; assumption.
+  - destruct (st <? 0) eqn:Es; [apply Z.ltb_lt in Es|]; lia.
+Qed.
+
+Lemma py_start_range_neg len st a :
+  0 <= len -> st < 0 -> -1 <= py_start len st a <= len - 1.
+Proof.
+  intros Hlen Hst. destruct a as [i|]; cbn [py_start].
+  - apply py_adjust_range_neg; assumption.
+  - destruct (st <? 0) eqn:Es; [|apply Z.ltb_ge in Es]; lia.
+Qed.
+
+Lemma py_stop_range_neg len st b :
+  0 <= len -> st < 0 -> -1 <= py_stop len st b <= len - 1.
+Proof.
+  intros Hlen Hst. destruct b as [i|]; cbn [py_stop].
+  - apply py_adjust_range_neg; assumption.
+  - destruct (st <? 0) eqn:Es; [|apply Z.ltb_ge in Es]; lia.
+Qed.
+
+(* Index::from + to_bound (clamp) coincides with PySlice_AdjustIndices *)
+Lemma clamp_eq_py_adjust_pos len st i :
+  0 <= len -> 0 < st ->
+  clampZ (if i <? 0 then len + i else i) 0 len = py_adjust len st i.
+Proof.
+  intros Hlen Hst. unfold clampZ, py_adjust.
+  destruct (st <? 0) eqn:Es; [apply Z.ltb_lt in Es; lia|].
+  destruct (i <? 0) eqn:E0.
+  - apply Z.ltb_lt in E0. cbv zeta.
+    destruct (i + len <? 0) eqn:E1;
+      [apply Z.ltb_lt in E1|apply Z.ltb_ge in E1]; lia.
+  - apply Z.ltb_ge in E0.
+    destruct (len <=? i) eqn:E1;
+      [apply Z.leb_le in E1|apply Z.leb_gt in E1]; lia.
+Qed.
+
+Lemma clamp_eq_py_adjust_neg len st i :
+  0 <= len -> st < 0 ->
+  clampZ (if i <? 0 then len + i else i) (-1) (len - 1) = py_adjust len st i.
+Proof.
+  intros Hlen Hst. unfold clampZ, py_adjust.
+  destruct (st <? 0) eqn:Es; [|apply Z.ltb_ge in Es; lia].
+  destruct (i <? 0) eqn:E0.
+  - apply Z.ltb_lt in E0. cbv zeta.
+    destruct (i + len <? 0) eqn:E1;
+      [apply Z.ltb_lt in E1|apply Z.ltb_ge in E1]; lia.
+  - apply Z.ltb_ge in E0.
+    destruct (len <=? i) eqn:E1;
+      [apply Z.leb_le in E1|apply Z.leb_gt in E1]; lia.
+Qed.
+
+Lemma slyce_bound_start_pos len st a :
+  0 <= len -> 0 < st -> slyce_bound len 0 len a 0 = py_start len st a.
+Proof.
+  intros Hlen Hst. destruct a as [i|]; cbn [slyce_bound py_start].
+  - apply clamp_eq_py_adjust_pos; assumption.
+  - destruct (st <? 0) eqn:Es; [apply Z.ltb_lt in Es; lia|reflexivity].
+Qed.
+
+Lemma slyce_bound_stop_pos len st b :
+  0 <= len -> 0 < st -> slyce_bound len 0 len b len = py_stop len st b.
+Proof.
+  intros Hlen Hst. destruct b as [i|]; cbn [slyce_bound py_stop].
+  - apply clamp_eq_py_adjust_pos; assumption.
+  - destruct (st <? 0) eqn:Es; [apply Z.ltb_lt in Es; lia|reflexivity].
+Qed.
+
+Lemma slyce_bound_start_neg len st a :
+  0 <= len -> st < 0 ->
+  slyce_bound len (-1) (len - 1) a (len - 1) = py_start len st a.
+Proof.
+  intros Hlen Hst. destruct a as [i|]; cbn [slyce_bound py_start].
+  - apply clamp_eq_py_adjust_neg; assumption.
+  - destruct (st <? 0) eqn:Es; [reflexivity|apply Z.ltb_ge in Es; lia].
+Qed.
+
+Lemma slyce_bound_stop_neg len st b :
+  0 <= len -> st < 0 ->
+  slyce_bound len (-1) (len - 1) b (-1) = py_stop len st b.
+Proof.
+  intros Hlen Hst. destruct b as [i|]; cbn [slyce_bound py_stop].
+  - apply clamp_eq_py_adjust_neg; assumption.
+  - destruct (st <? 0) eqn:Es; [reflexivity|apply Z.ltb_ge in Es; lia].
+Qed.
+
+Lemma slyce_indices_unfold len start stop step :
+  slyce_indices len start stop step =
+  if step_of step =? 0 then [] else
+  slyce_iter (S (Z.to_nat len))
+    (slyce_bound len
+       (if 0 <=? step_of step then (if 0 <=? step_of step then 0 else len - 1)
+        else (if 0 <=? step_of step then len else -1))
+       (if 0 <=? step_of step then (if 0 <=? step_of step then len else -1)
+        else (if 0 <=? step_of step then 0 else len - 1))
+       start (if 0 <=? step_of step then 0 else len - 1))
+    (slyce_bound len
+       (if 0 <=? step_of step then (if 0 <=? step_of step then 0 else len - 1)
+        else (if 0 <=? step_of step then len else -1))
+       (if 0 <=? step_of step then (if 0 <=? step_of step then len else -1)
+        else (if 0 <=? step_of step then 0 else len - 1))
+       stop (if 0 <=? step_of step then len else -1))
+    (step_of step).
+Proof. reflexivity. Qed.
+
+Lemma slyce_eq_py len :
+  0 <= len -> forall start stop step,
+  slyce_indices len start stop step = py_slice len start stop step.
+Proof.
+  intros Hlen start stop step.
+  rewrite slyce_indices_unfold, py_slice_unfold.
+  set (st := step_of step).
+  destruct (st =? 0) eqn:Ez; [reflexivity|].
+  apply Z.eqb_neq in Ez.
+  destruct (0 <=? st) eqn:Es.
+  - apply Z.leb_le in Es. assert (Hst : 0 < st) by lia.
+    rewrite (slyce_bound_start_pos len st start Hlen Hst).
+    rewrite (slyce_bound_stop_pos len st stop Hlen Hst).
+    apply slyce_iter_spec_l; try assumption.
+    + intros _. split; [apply py_start_range_pos|apply py_stop_range_pos]; assumption.
+    + intros Hn. lia.
+  - apply Z.leb_gt in Es.
+    rewrite (slyce_bound_start_neg len st start Hlen Es).
+    rewrite (slyce_bound_stop_neg len st stop Hlen Es).
+    apply slyce_iter_spec_l; try assumption.
+    + intros Hp. lia.
+    + intros _. split; [apply py_start_range_neg|apply py_stop_range_neg]; assumption.
+Qed.
+
+(* ------------------------------------------------------------------ *)
+(* 4. every selected index is valid                                    *)
+(* ------------------------------------------------------------------ *)
+
+Lemma py_slice_in_range len a b c k :
+  0 <= len -> In k (py_slice len a b c) -> 0 <= k < len.
+Proof.
+  intros Hlen. rewrite py_slice_unfold.
+  set (st := step_of c). set (s0 := py_start len st a). set (e0 := py_stop len st b).
+  destruct (st =? 0) eqn:Ez; [intros []|].
+  apply Z.eqb_neq in Ez.
+  intros Hin. apply arith_prog_in in Hin. destruct Hin as [j [Hj Hk]].
+  destruct (Z_lt_dec 0 st) as [Hpos|Hnpos].
+  - destruct (py_count_pos_spec s0 e0 st Hpos) as [H0 [H1 [H2 H3]]].
+    pose proof (py_start_range_pos len st a Hlen Hpos) as Hs.
+    pose proof (py_stop_range_pos len st b Hlen Hpos) as He.
+    fold s0 in Hs. fold e0 in He.
+    specialize (H1 ltac:(lia)).
+    assert (Hj1 : 0 <= Z.of_nat j * st) by (apply Z.mul_nonneg_nonneg; lia).
+    assert (Hj2 : Z.of_nat j * st <= (py_count s0 e0 st - 1) * st)
+      by (apply Z.mul_le_mono_nonneg_r; lia).
+    lia.
+  - assert (Hneg : st < 0) by lia.
+    destruct (py_count_neg_spec s0 e0 st Hneg) as [H0 [H1 [H2 H3]]].
+    pose proof (py_start_range_neg len st a Hlen Hneg) as Hs.
+    pose proof (py_stop_range_neg len st b Hlen Hneg) as He.
+    fold s0 in Hs. fold e0 in He.
+    specialize (H1 ltac:(lia)).
+    assert (Hj1 : Z.of_nat j * st <= 0) by (apply Z.mul_nonneg_nonpos; lia).
+    assert (Hj2 : (py_count s0 e0 st - 1) * st <= Z.of_nat j * st)
+      by (apply Z.mul_le_mono_nonpos_r; lia).
+    lia.
+Qed.
+
+Lemma slyce_indices_in_range_l len a b c k :
+  0 <= len -> In k (slyce_indices len a b c) -> 0 <= k < len.
+Proof.
+  intros Hlen. rewrite slyce_eq_py by exact Hlen. apply py_slice_in_range. exact Hlen.
+Qed.
+
+Lemma py_slice_length_le len a b c :
+  0 <= len -> (length (py_slice len a b c) <= Z.to_nat len)%nat.
+Proof.
+  intros Hlen. rewrite py_slice_unfold.
+  set (st := step_of c).
+  destruct (st =? 0) eqn:Ez; [cbn; lia|].
+  apply Z.eqb_neq in Ez. rewrite arith_prog_length.
+  assert (H : 0 <= py_count (py_start len st a) (py_stop len st b) st <= len).
+  { apply py_count_le_len; try assumption.
+    - intros Hp. split; [apply py_start_range_pos|apply py_stop_range_pos]; assumption.
+    - intros Hn. split; [apply py_start_range_neg|apply py_stop_range_neg]; assumption. }
+  lia.
+Qed.
+
+Lemma select_nil {A} (l : list A) : select l [] = Some [].
+Proof. reflexivity. Qed.
+
+Lemma select_cons {A} (l : list A) i idx :
+  select l (i :: idx) =
+  match nth_error l (Z.to_nat i), select l idx with
+  | Some x, Some r => if 0 <=? i then Some (x :: r) else None
+  | _, _ => None
+  end.
+Proof. reflexivity. Qed.
+
+Lemma select_total_l {A} (l : list A) idx :
+  (forall k, In k idx -> 0 <= k < Z.of_nat (length l)) ->
+  exists r, select l idx = Some r /\ length r = length idx /\
+            forall j, (j < length idx)%nat ->
+                      nth_error r j = nth_error l (Z.to_nat (nth j idx 0)).
+Proof.
+  induction idx as [|i idx IH]; intros Hin.
+  - exists []. split; [reflexivity|]. split; [reflexivity|].
+    intros j Hj. cbn in Hj. lia.
+  - destruct IH as [r [Hsel [Hlen Hnth]]].
+    { intros k Hk. apply Hin. right. exact Hk. }
+    pose proof (Hin i (or_introl eq_refl)) as Hi.
+    destruct (nth_error_lt_some l (Z.to_nat i) ltac:(lia)) as [x Hx].
+    exists (x :: r). rewrite select_cons, Hx, Hsel.
+    destruct (0 <=? i) eqn:E0; [|apply Z.leb_gt in E0; lia].
+    split; [reflexivity|]. split; [cbn [length]; lia|].
+    intros [|j] Hj; cbn [nth nth_error].
+    + symmetry. exact Hx.
+    + apply Hnth. cbn [length] in Hj. lia.
+Qed.
+
+(* converse: select succeeds only on valid indices *)
+Lemma select_some_valid {A} (l : list A) idx r :
+  select l idx = Some r ->
+  forall k, In k idx -> 0 <= k < Z.of_nat (length l).
+Proof.
+  revert r. induction idx as [|i idx IH]; intros r Hsel k Hk; [destruct Hk|].
+  rewrite select_cons in Hsel.
+  destruct (nth_error l (Z.to_nat i)) as [x|] eqn:Ex; [|discriminate].
+  destruct (select l idx) as [r'|] eqn:Er; [|discriminate].
+  destruct (0 <=? i) eqn:E0; [|discriminate].
+  apply Z.leb_le in E0.
+  destruct Hk as [Hk|Hk].
+  - subst k. assert (nth_error l (Z.to_nat i) <> None) as Hn by congruence.
+    apply nth_error_Some in Hn. lia.
+  - exact (IH r' eq_refl k Hk).
+Qed.
+
+Lemma at_str_nonneg s i :
+  0 <= i < Z.of_nat (length s) ->
+  at_exec (VString s) (VInt i) =
+  match nth_error s (Z.to_nat i) with Some c => Ok (VString [c]) | None => Panic end.
+Proof.
+  intros Hr.
+  destruct (nth_error_lt_some s (Z.to_nat i) ltac:(lia)) as [x Hx].
+  rewrite Hx. apply at_str_some; [lia|].
+  rewrite Z.mod_small by lia. exact Hx.
+Qed.
+
+(* ---- slicing is total on arrays and strings ---- *)
+
+Lemma opt_int_int a : opt_int (option_map VInt a) = Ok a.
+Proof. destruct a; reflexivity. Qed.
+
+Lemma slice_exec_arr t vs a b c :
+  slice_exec (VArr t vs) (option_map VInt a) (option_map VInt b) (option_map VInt c)
+  = match select vs (py_slice (Z.of_nat (length vs)) a b c) with
+    | Some r => Ok (arr_of r) | None => Panic end.
+Proof.
+  unfold slice_exec. rewrite !opt_int_int. cbn [obind]. unfold zlen.
+  rewrite slyce_eq_py by lia. reflexivity.
+Qed.
+
+Lemma slice_exec_str s a b c :
+  slice_exec (VString s) (option_map VInt a) (option_map VInt b) (option_map VInt c)
+  = match select s (py_slice (Z.of_nat (length s)) a b c) with
+    | Some r => Ok (VString r) | None => Panic end.
+Proof.
+  unfold slice_exec. rewrite !opt_int_int. cbn [obind]. unfold zlen.
+  rewrite slyce_eq_py by lia. reflexivity.
+Qed.
+
+Lemma select_py_slice {A} (l : list A) a b c :
+  exists r, select l (py_slice (Z.of_nat (length l)) a b c) = Some r /\
+    length r = length (py_slice (Z.of_nat (length l)) a b c) /\
+    forall j, (j < length (py_slice (Z.of_nat (length l)) a b c))%nat ->
+      nth_error r j
+      = nth_error l (Z.to_nat (nth j (py_slice (Z.of_nat (length l)) a b c) 0)).
+Proof.
+  apply select_total_l. intros k Hk.
+  apply (py_slice_in_range _ a b c); [lia|exact Hk].
+Qed.
+
+Lemma slice_arr_total t vs a b c :
+  exists r,
+    slice_exec (VArr t vs) (option_map VInt a) (option_map VInt b) (option_map VInt c)
+    = Ok (arr_of r) /\
+    length r = length (py_slice (Z.of_nat (length vs)) a b c) /\
+    forall j, (j < length (py_slice (Z.of_nat (length vs)) a b c))%nat ->
+      nth_error r j
+      = nth_error vs (Z.to_nat (nth j (py_slice (Z.of_nat (length vs)) a b c) 0)).
+Proof.
+  destruct (select_py_slice vs a b c) as [r [Hsel [Hlen Hnth]]].
+  exists r. rewrite slice_exec_arr, Hsel. auto.
+Qed.
+
+Lemma slice_str_total s a b c :
+  exists r,
+    slice_exec (VString s) (option_map VInt a) (option_map VInt b) (option_map VInt c)
+    = Ok (VString r) /\
+    length r = length (py_slice (Z.of_nat (length s)) a b c) /\
+    forall j, (j < length (py_slice (Z.of_nat (length s)) a b c))%nat ->
+      nth_error r j
+      = nth_error s (Z.to_nat (nth j (py_slice (Z.of_nat (length s)) a b c) 0)).
+Proof.
+  destruct (select_py_slice s a b c) as [r [Hsel [Hlen Hnth]]].
+  exists r. rewrite slice_exec_str, Hsel. auto.
+Qed.
+
+(* the result is determined by the elements: inversion form *)
+Lemma slice_arr_elements t vs a b c w :
+  slice_exec (VArr t vs) (option_map VInt a) (option_map VInt b) (option_map VInt c) = Ok w ->
+  exists r, w = arr_of r /\
+    length r = length (py_slice (Z.of_nat (length vs)) a b c) /\
+    forall j, (j < length (py_slice (Z.of_nat (length vs)) a b c))%nat ->
+      nth_error r j
+      = nth_error vs (Z.to_nat (nth j (py_slice (Z.of_nat (length vs)) a b c) 0)).
+Proof.
+  destruct (slice_arr_total t vs a b c) as [r [Hex H]].
+  rewrite Hex. intros Hw. exists r. split; [congruence|exact H].
+Qed.
+
+Lemma slice_str_elements s a b c w :
+  slice_exec (VString s) (option_map VInt a) (option_map VInt b) (option_map VInt c) = Ok w ->
+  exists r, w = VString r /\
+    length r = length (py_slice (Z.of_nat (length s)) a b c) /\
+    forall j, (j < length (py_slice (Z.of_nat (length s)) a b c))%nat ->
+      nth_error r j
+      = nth_error s (Z.to_nat (nth j (py_slice (Z.of_nat (length s)) a b c) 0)).
+Proof.
+  destruct (slice_str_total s a b c) as [r [Hex H]].
+  rewrite Hex. intros Hw. exists r. split; [congruence|exact H].
+Qed.
+
+Lemma slice_arr_no_panic t vs a b c :
+  slice_exec (VArr t vs) (option_map VInt a) (option_map VInt b) (option_map VInt c) <> Panic.
+Proof. destruct (slice_arr_total t vs a b c) as [r [Hex _]]. rewrite Hex. discriminate. Qed.
+
+Lemma slice_str_no_panic s a b c :
+  slice_exec (VString s) (option_map VInt a) (option_map VInt b) (option_map VInt c) <> Panic.
+Proof. destruct (slice_str_total s a b c) as [r [Hex _]]. rewrite Hex. discriminate. Qed.
+
+Lemma slice_arr_no_err t vs a b c e :
+  slice_exec (VArr t vs) (option_map VInt a) (option_map VInt b) (option_map VInt c) <> Err e.
+Proof. destruct (slice_arr_total t vs a b c) as [r [Hex _]]. rewrite Hex. discriminate. Qed.
+
+Lemma slice_str_no_err s a b c e :
+  slice_exec (VString s) (option_map VInt a) (option_map VInt b) (option_map VInt c) <> Err e.
+Proof. destruct (slice_str_total s a b c) as [r [Hex _]]. rewrite Hex. discriminate. Qed.
+
+(* step 0 *)
+Lemma py_slice_step_zero len a b : py_slice len a b (Some 0) = [].
+Proof. reflexivity. Qed.
+
+Lemma slice_arr_step_zero t vs a b :
+  slice_exec (VArr t vs) (option_map VInt a) (option_map VInt b) (Some (VInt 0))
+  = Ok (arr_of []).
+Proof. exact (slice_exec_arr t vs a b (Some 0)). Qed.
+
+Lemma slice_str_step_zero s a b :
+  slice_exec (VString s) (option_map VInt a) (option_map VInt b) (Some (VInt 0))
+  = Ok (VString []).
+Proof. exact (slice_exec_str s a b (Some 0)). Qed.
+
+(* ------------------------------------------------------------------ *)
+(* 5. mutual consistency of slicing, len and indexing                  *)
+(* ------------------------------------------------------------------ *)
+
+Lemma len_arr_of r : len_exec (arr_of r) = Ok (Z.of_nat (length r)).
+Proof. reflexivity. Qed.
+
+Lemma slice_arr_len t vs a b c w :
+  slice_exec (VArr t vs) (option_map VInt a) (option_map VInt b) (option_map VInt c) = Ok w ->
+  len_exec w = Ok (Z.of_nat (length (py_slice (Z.of_nat (length vs)) a b c))).
+Proof.
+  intros Hw. destruct (slice_arr_elements t vs a b c w Hw) as [r [Hr [Hlen _]]].
+  subst w. rewrite len_arr_of, Hlen. reflexivity.
+Qed.
+
+Lemma slice_str_len s a b c w :
+  slice_exec (VString s) (option_map VInt a) (option_map VInt b) (option_map VInt c) = Ok w ->
+  len_exec w = Ok (Z.of_nat (length (py_slice (Z.of_nat (length s)) a b c))).
+Proof.
+  intros Hw. destruct (slice_str_elements s a b c w Hw) as [r [Hr [Hlen _]]].
+  subst w. rewrite len_str, Hlen. reflexivity.
+Qed.
+
+(* a slice is never longer than its source *)
+Lemma slice_arr_len_le t vs a b c w m :
+  slice_exec (VArr t vs) (option_map VInt a) (option_map VInt b) (option_map VInt c) = Ok w ->
+  len_exec w = Ok m -> 0 <= m <= Z.of_nat (length vs).
+Proof.
+  intros Hw Hm. rewrite (slice_arr_len t vs a b c w Hw) in Hm.
+  injection Hm as <-.
+  pose proof (py_slice_length_le (Z.of_nat (length vs)) a b c ltac:(lia)). lia.
+Qed.
+
+Lemma slice_str_len_le s a b c w m :
+  slice_exec (VString s) (option_map VInt a) (option_map VInt b) (option_map VInt c) = Ok w ->
+  len_exec w = Ok m -> 0 <= m <= Z.of_nat (length s).
+Proof.
+  intros Hw Hm. rewrite (slice_str_len s a b c w Hw) in Hm.
+  injection Hm as <-.
+  pose proof (py_slice_length_le (Z.of_nat (length s)) a b c ltac:(lia)). lia.
+Qed.
+
+Lemma slice_arr_at t vs a b c w j :
+  slice_exec (VArr t vs) (option_map VInt a) (option_map VInt b) (option_map VInt c) = Ok w ->
+  0 <= j < Z.of_nat (length (py_slice (Z.of_nat (length vs)) a b c)) ->
+  at_exec w (VInt j)
+  = at_exec (VArr t vs) (VInt (nth (Z.to_nat j) (py_slice (Z.of_nat (length vs)) a b c) 0)).
+Proof.
+  intros Hw Hj. destruct (slice_arr_elements t vs a b c w Hw) as [r [Hr [Hlen Hnth]]].
+  subst w. unfold arr_of.
+  set (idx := py_slice (Z.of_nat (length vs)) a b c) in *.
+  assert (Hk : 0 <= nth (Z.to_nat j) idx 0 < Z.of_nat (length vs)).
+  { apply (py_slice_in_range (Z.of_nat (length vs)) a b c); [lia|]. apply nth_In. subst idx. lia. }
+  rewrite at_arr_nonneg by lia.
+  rewrite at_arr_nonneg by exact Hk.
+  rewrite Hnth by lia. reflexivity.
+Qed.
+
+Lemma slice_str_at s a b c w j :
+  slice_exec (VString s) (option_map VInt a) (option_map VInt b) (option_map VInt c) = Ok w ->
+  0 <= j < Z.of_nat (length (py_slice (Z.of_nat (length s)) a b c)) ->
+  at_exec w (VInt j)
+  = at_exec (VString s) (VInt (nth (Z.to_nat j) (py_slice (Z.of_nat (length s)) a b c) 0)).
+Proof.
+  intros Hw Hj. destruct (slice_str_elements s a b c w Hw) as [r [Hr [Hlen Hnth]]].
+  subst w.
+  set (idx := py_slice (Z.of_nat (length s)) a b c) in *.
+  assert (Hk : 0 <= nth (Z.to_nat j) idx 0 < Z.of_nat (length s)).
+  { apply (py_slice_in_range (Z.of_nat (length s)) a b c); [lia|]. apply nth_In. subst idx. lia. }
+  rewrite at_str_nonneg by lia.
+  rewrite at_str_nonneg by exact Hk.
+  rewrite Hnth by lia. reflexivity.
+Qed.
+
+(* indexing the slice result fails exactly outside [-m, m), m = its len *)
+Lemma slice_arr_at_oob t vs a b c w j :
+  slice_exec (VArr t vs) (option_map VInt a) (option_map VInt b) (option_map VInt c) = Ok w ->
+  ~ (- Z.of_nat (length (py_slice (Z.of_nat (length vs)) a b c)) <= j
+     < Z.of_nat (length (py_slice (Z.of_nat (length vs)) a b c))) ->
+  at_exec w (VInt j) = Err E_IndexOutOfBounds.
+Proof.
+  intros Hw Hj. destruct (slice_arr_elements t vs a b c w Hw) as [r [Hr [Hlen _]]].
+  subst w. unfold arr_of. apply at_arr_oob. rewrite Hlen. exact Hj.
+Qed.
+
+Lemma slice_str_at_oob s a b c w j :
+  slice_exec (VString s) (option_map VInt a) (option_map VInt b) (option_map VInt c) = Ok w ->
+  ~ (- Z.of_nat (length (py_slice (Z.of_nat (length s)) a b c)) <= j
+     < Z.of_nat (length (py_slice (Z.of_nat (length s)) a b c))) ->
+  at_exec w (VInt j) = Err E_IndexOutOfBounds.
+Proof.
+  intros Hw Hj. destruct (slice_str_elements s a b c w Hw) as [r [Hr [Hlen _]]].
+  subst w. apply at_str_oob. rewrite Hlen. exact Hj.
+Qed.
+
+(* ---- full slice and reversal ---- *)
+
+Lemma py_count_full n : 0 <= n -> py_count 0 n 1 = n.
+Proof.
+  intros Hn. unfold py_count. change (1 <? 0) with false. cbv iota.
+  destruct (0 <? n) eqn:E; [apply Z.ltb_lt in E|apply Z.ltb_ge in E].
+  - rewrite Z.div_1_r. lia.
+  - lia.
+Qed.
+
+Lemma py_count_rev n : 0 <= n -> py_count (n - 1) (-1) (-1) = n.
+Proof.
+  intros Hn. unfold py_count. change (-1 <? 0) with true. cbv iota.
+  change (- (-1)) with 1.
+  destruct (-1 <? n - 1) eqn:E; [apply Z.ltb_lt in E|apply Z.ltb_ge in E].
+  - rewrite Z.div_1_r. lia.
+  - lia.
+Qed.
+
+Lemma py_slice_full_prog n :
+  0 <= n -> py_slice n None None None = arith_prog 0 1 (Z.to_nat n).
+Proof.
+  intros Hn. rewrite py_slice_unfold. cbn [step_of].
+  change (1 =? 0) with false. cbv iota.
+  change (py_start n 1 None) with 0. change (py_stop n 1 None) with n.
+  rewrite py_count_full by exact Hn. reflexivity.
+Qed.
+
+Lemma py_slice_full n :
+  0 <= n -> py_slice n None None None = map Z.of_nat (seq 0 (Z.to_nat n)).
+Proof.
+  intros Hn. rewrite py_slice_full_prog by exact Hn. unfold arith_prog.
+  apply map_ext. intros k. lia.
+Qed.
+
+Lemma py_slice_rev_prog n :
+  0 <= n -> py_slice n None None (Some (-1)) = arith_prog (n - 1) (-1) (Z.to_nat n).
+Proof.
+  intros Hn. rewrite py_slice_unfold. cbn [step_of].
+  change (-1 =? 0) with false. cbv iota.
+  change (py_start n (-1) None) with (n - 1). change (py_stop n (-1) None) with (-1).
+  rewrite py_count_rev by exact Hn. reflexivity.
+Qed.
+
+Lemma py_slice_rev n :
+  0 <= n ->
+  py_slice n None None (Some (-1))
+  = map (fun k => n - 1 - Z.of_nat k) (seq 0 (Z.to_nat n)).
+Proof.
+  intros Hn. rewrite py_slice_rev_prog by exact Hn. unfold arith_prog.
+  apply map_ext. intros k. lia.
+Qed.
+
+Lemma select_full {A} (l : list A) :
+  select l (py_slice (Z.of_nat (length l)) None None None) = Some l.
+Proof.
+  destruct (select_py_slice l None None None) as [r [Hsel [Hlen Hnth]]].
+  rewrite Hsel. f_equal.
+  rewrite py_slice_full_prog in Hlen, Hnth by lia.
+  rewrite arith_prog_length, Nat2Z.id in Hlen, Hnth.
+  apply nth_error_ext_eq; [exact Hlen|].
+  intros j Hj. rewrite Hnth by lia.
+  rewrite arith_prog_nth by lia.
+  f_equal. lia.
+Qed.
+
+Lemma nth_error_rev {A} (l : list A) j :
+  (j < length l)%nat -> nth_error (rev l) j = nth_error l (length l - S j).
+Proof.
+  intros Hj. destruct l as [|d l']; [cbn in Hj; lia|].
+  set (l := d :: l') in *.
+  rewrite (nth_error_nth' (rev l) d) by (rewrite rev_length; exact Hj).
+  rewrite (nth_error_nth' l d) by lia.
+  f_equal. apply rev_nth. exact Hj.
+Qed.
+
+Lemma select_rev {A} (l : list A) :
+  select l (py_slice (Z.of_nat (length l)) None None (Some (-1))) = Some (rev l).
+Proof.
+  destruct (select_py_slice l None None (Some (-1))) as [r [Hsel [Hlen Hnth]]].
+  rewrite Hsel. f_equal.
+  rewrite py_slice_rev_prog in Hlen, Hnth by lia.
+  rewrite arith_prog_length, Nat2Z.id in Hlen, Hnth.
+  apply nth_error_ext_eq; [rewrite rev_length; exact Hlen|].
+  intros j Hj. rewrite Hnth by lia.
+  rewrite arith_prog_nth by lia.
+  rewrite nth_error_rev by lia.
+  f_equal. lia.
+Qed.
+
+Lemma slice_arr_full t vs :
+  slice_exec (VArr t vs) None None None = Ok (arr_of vs).
+Proof.
+  pose proof (slice_exec_arr t vs None None None) as H. cbn [option_map] in H.
+  rewrite H, select_full. reflexivity.
+Qed.
+
+Lemma slice_str_full s :
+  slice_exec (VString s) None None None = Ok (VString s).
+Proof.
+  pose proof (slice_exec_str s None None None) as H. cbn [option_map] in H.
+  rewrite H, select_full. reflexivity.
+Qed.
+
+Lemma slice_arr_rev t vs :
+  slice_exec (VArr t vs) None None (Some (VInt (-1))) = Ok (arr_of (rev vs)).
+Proof.
+  pose proof (slice_exec_arr t vs None None (Some (-1))) as H. cbn [option_map] in H.
+  rewrite H, select_rev. reflexivity.
+Qed.
+
+Lemma slice_str_rev s :
+  slice_exec (VString s) None None (Some (VInt (-1))) = Ok (VString (rev s)).
+Proof.
+  pose proof (slice_exec_str s None None (Some (-1))) as H. cbn [option_map] in H.
+  rewrite H, select_rev. reflexivity.
+Qed.
+
+(* a non-integer slice operand is the only way to reach Panic on a sequence *)
+Lemma slice_exec_seq_ok_iff v a b c :
+  (exists t vs, v = VArr t vs) \/ (exists s, v = VString s) ->
+  (exists w, slice_exec v a b c = Ok w) <->
+  (exists a' b' c', a = option_map VInt a' /\ b = option_map VInt b' /\ c = option_map VInt c').
+Proof.
+  intros Hv. split.
+  - intros [w Hw]. unfold slice_exec in Hw.
+    assert (Hopt : forall o, (exists z, opt_int o = Ok z) -> exists o', o = option_map VInt o').
+    { intros [[] |] [zz Hz]; cbn in Hz; try discriminate;
+        [eexists (Some _)|exists None]; reflexivity. }
+    destruct (opt_int a) as [a'| | |] eqn:Ea; try discriminate.
+    destruct (opt_int b) as [b'| | |] eqn:Eb; try discriminate.
+    destruct (opt_int c) as [c'| | |] eqn:Ec; try discriminate.
+    destruct (Hopt a (ex_intro _ a' Ea)) as [a'' ->].
+    destruct (Hopt b (ex_intro _ b' Eb)) as [b'' ->].
+    destruct (Hopt c (ex_intro _ c' Ec)) as [c'' ->].
+    exists a'', b'', c''. repeat split; reflexivity.
+  - intros [a' [b' [c' [-> [-> ->]]]]].
+    destruct Hv as [[t [vs ->]]|[s ->]].
+    + destruct (slice_arr_total t vs a' b' c') as [r [Hex _]]. eauto.
+    + destruct (slice_str_total s a' b' c') as [r [Hex _]]. eauto.
+Qed.
